@@ -119,8 +119,8 @@ def compare_system(rec, fd, d, mfa, route, param_truth=None, sig=""):
         else:
             for s in d.stocks:
                 st = mfa.stocks[s["name"]]
-                if type(st).__name__ != s["cls"]:
-                    bad("stock-class-differs", stock=s["name"], got=type(st).__name__, expected=s["cls"])
+                if (type(st) is not s["cls_obj"]) if s.get("cls_obj") is not None else (type(st).__name__ != s["cls"]):
+                    bad("stock-class-differs", stock=s["name"], got=type(st).__name__, expected=s["cls"] if s.get("cls_obj") is None else s["cls_obj"].__name__)
                     continue
                 if s["lm"] is not None and type(st.lifetime_model).__name__ != s["lm"]:
                     bad("stock-lifetime-model-class-differs", stock=s["name"], got=type(st.lifetime_model).__name__, expected=s["lm"])
@@ -401,7 +401,11 @@ def one(rec, hub, seed, tier, i, tmpdir):
     rng = case_nprng(seed, "c18.system", 0, i)
     which = i % 3
     n_time = [None, None, None, None, 1, 2][int(rng.integers(0, 6))]  # also systems over one or two time steps (nothing is computed here)
+    user_classes = bool(rng.random() < 0.3)
     d = SY.gen_def(rng, hostile_names=(tier == "thorough"), time_letter_variants=0.0 if which == 0 and i % 2 == 0 else 0.35, vary_items=True, big_system=0.03, n_time=n_time)
+    if user_classes:
+        for s_ in d.stocks:
+            s_["user_subclass"] = True  # stock definitions naming the user's own subclasses of the shipped stock classes
     # distinct flow names (the statement's domain): overrides for parallel edges are generated by gen_def
     if which == 0:
         try:
